@@ -65,27 +65,32 @@ def findSub (pat : Str) : Str → Option (Str × Str)
 
 def isSp (c : Char) : Bool := c = ' '
 
+/-- `(\n[ ]*)?<!--`: the optional leading newline + blanks, and the text after `<!--`. -/
+def commentStart (s : Str) : Option (Str × Str) :=
+  match s with
+  | '\n' :: t =>
+    match stripPrefix "<!--".toList (t.dropWhile isSp) with
+    | some body => some ('\n' :: t.takeWhile isSp, body)
+    | none => none
+  | _ => (stripPrefix "<!--".toList s).map fun body => ([], body)
+
+/-- `([ ]*\n)?` after the comment: (what it matched, rest). -/
+def commentTrail (after : Str) : Str × Str :=
+  match after.dropWhile isSp with
+  | '\n' :: r => (after.takeWhile isSp ++ ['\n'], r)
+  | _ => ([], after)
+
 /-- the comment alternative `(\n[ ]*)?<!--.*?-->([ ]*\n)?` at the start of `s`:
 (replacement text, rest). -/
 def matchComment (s : Str) : Option (Str × Str) :=
-  let start : Option (Str × Str) :=
-    match s with
-    | '\n' :: t =>
-      match stripPrefix "<!--".toList (t.dropWhile isSp) with
-      | some body => some ('\n' :: t.takeWhile isSp, body)
-      | none => none
-    | _ => (stripPrefix "<!--".toList s).map fun body => ([], body)
-  match start with
+  match commentStart s with
   | none => none
   | some (lead, body) =>
     match findSub "-->".toList body with
     | none => none
     | some (_, after) =>
-      let (trail, rest) :=
-        match after.dropWhile isSp with
-        | '\n' :: r => (after.takeWhile isSp ++ ['\n'], r)
-        | _ => ([], after)
-      some (if !lead.isEmpty && !trail.isEmpty then ['\n'] else lead ++ trail, rest)
+      some (if !lead.isEmpty && !(commentTrail after).1.isEmpty then ['\n'] else lead ++ (commentTrail after).1,
+            (commentTrail after).2)
 
 /-- a closing tag `</(?P=tagname)\s*>` at the start of `s`, `name` being the opening tag's name
 as written: (its text, rest). -/
@@ -110,26 +115,28 @@ def findClose (cfg : Cfg) (name : Str) : Str → Option (Str × Str × Str)
 
 def notAngle (c : Char) : Bool := c != '<' && c != '>'
 
+/-- `> inner </name\s*>` after the attribute list `vl`: (vlist, inner, text matched, rest) -/
+def openForm (cfg : Cfg) (name vl afterGt : Str) : Option (Str × Str × Str × Str) :=
+  match findClose cfg name afterGt with
+  | none => none
+  | some (inner, ct, rest) => some (vl, inner, vl ++ ['>'] ++ inner ++ ct, rest)
+
+/-- the attribute list after a whitespace character `c`: `[^<>]*` up to the `>` -/
+def attrForm (cfg : Cfg) (name : Str) (c : Char) (r' : Str) : Option (Str × Str × Str × Str) :=
+  match r'.dropWhile notAngle with
+  | '>' :: rest =>
+    if (r'.takeWhile notAngle).getLast? = some '/' then
+      some (c :: (r'.takeWhile notAngle).dropLast, [], c :: r'.takeWhile notAngle ++ ['>'], rest)
+    else openForm cfg name (c :: r'.takeWhile notAngle) rest
+  | _ => none
+
 /-- what follows the tag name: `(vlist)? (/> | > inner </name\s*>)`; returns (vlist, inner, text
 matched after the name, rest). -/
 def matchTagRest (cfg : Cfg) (name : Str) (r : Str) : Option (Str × Str × Str × Str) :=
-  let openForm (vl : Str) (afterGt : Str) : Option (Str × Str × Str × Str) :=
-    match findClose cfg name afterGt with
-    | none => none
-    | some (inner, ct, rest) => some (vl, inner, vl ++ ['>'] ++ inner ++ ct, rest)
   match r with
   | '/' :: '>' :: rest => some ([], [], ['/', '>'], rest)
-  | '>' :: rest => openForm [] rest
-  | c :: r' =>
-    if cfg.isSpace c then
-      let v := r'.takeWhile notAngle
-      match r'.dropWhile notAngle with
-      | '>' :: rest =>
-        if v.getLast? = some '/' then
-          some (c :: v.dropLast, [], c :: v ++ ['>'], rest)
-        else openForm (c :: v) rest
-      | _ => none
-    else none
+  | '>' :: rest => openForm cfg name [] rest
+  | c :: r' => if cfg.isSpace c then attrForm cfg name c r' else none
   | [] => none
 
 def isAscii (s : Str) : Bool := s.all fun c => c.toNat < 128
@@ -157,25 +164,54 @@ structure Out where
   table : List (Str × Rec) := []       -- marker ↦ record, in creation order
   deriving Repr
 
-/-- `regex.sub(self._repl_to_uniq, txt)`; fuel ≥ length of `s`. -/
-def scan (cfg : Cfg) : Nat → Str → Out → Out
-  | 0, _, o => o
-  | _, [], o => o
-  | fuel + 1, c :: cs, o =>
+/-- what `re.sub` does with the input, piece by piece: a character kept, a replacement text (comment
+handling; a match left alone because its tag name is not ASCII), or a protected region. -/
+inductive Seg where
+  | plain (c : Char)
+  | repl (t : Str) (raw : Str)        -- `raw`: the input text this piece stands for
+  | region (r : Rec) (raw : Str)
+  deriving Repr
+
+/-- `regex.sub(self._repl_to_uniq, txt)` as a list of pieces; fuel ≥ length of `s`. -/
+def segs (cfg : Cfg) : Nat → Str → List Seg
+  | 0, _ => []
+  | _, [] => []
+  | fuel + 1, c :: cs =>
     match matchComment (c :: cs) with
-    | some (repl, rest) => scan cfg fuel rest { o with text := o.text ++ repl }
+    | some (repl, rest) => .repl repl ((c :: cs).take ((c :: cs).length - rest.length)) :: segs cfg fuel rest
     | none =>
       match matchTag cfg (c :: cs) with
       | some (r, ascii, rest) =>
         if !ascii then                                      -- not a tag: 'ſ' 'ı' 'K' only fold to s i k
-          scan cfg fuel rest { o with text := o.text ++ r.complete }
+          .repl r.complete r.complete :: segs cfg fuel rest
         else
-          let r := if r.tagname = "nowiki".toList then { r with complete := r.inner } else r
-          let m := marker cfg.rand r.tagname o.table.length
-          scan cfg fuel rest { text := o.text ++ m, table := o.table ++ [(m, r)] }
-      | none => scan cfg fuel cs { o with text := o.text ++ [c] }
+          .region (if r.tagname = "nowiki".toList then { r with complete := r.inner } else r) r.complete :: segs cfg fuel rest
+      | none => .plain c :: segs cfg fuel cs
 
-def replaceTags (cfg : Cfg) (s : Str) : Out := scan cfg s.length s {}
+/-- write the pieces out: regions become markers numbered in order of appearance. -/
+def emit (rand : Str) : List Seg → Out → Out
+  | [], o => o
+  | .plain c :: ss, o => emit rand ss { o with text := o.text ++ [c] }
+  | .repl t _ :: ss, o => emit rand ss { o with text := o.text ++ t }
+  | .region r _ :: ss, o =>
+    let m := marker rand r.tagname o.table.length
+    emit rand ss { text := o.text ++ m, table := o.table ++ [(m, r)] }
+
+def replaceTags (cfg : Cfg) (s : Str) : Out := emit cfg.rand (segs cfg s.length s) {}
+
+/-- the text with every region written back in place (what protect-then-restore should give). -/
+def direct : List Seg → Str
+  | [] => []
+  | .plain c :: ss => c :: direct ss
+  | .repl t _ :: ss => t ++ direct ss
+  | .region r _ :: ss => r.complete ++ direct ss
+
+/-- the input text the pieces stand for -/
+def consumed : List Seg → Str
+  | [] => []
+  | .plain c :: ss => c :: consumed ss
+  | .repl _ raw :: ss => raw ++ consumed ss
+  | .region _ raw :: ss => raw ++ consumed ss
 
 /-! ### `replace_uniq` -/
 
